@@ -156,7 +156,16 @@ class Ctx:
         t0 = time.time()
         self.feas_queries += 1
         r = self.solver.check(*extra)
-        self.solver_time += time.time() - t0
+        dt_ = time.time() - t0
+        if dt_ > 1.0 and os.environ.get("PYVC_DUMP_SLOW"):
+            s2 = z3.Solver()
+            for a in self.pc:
+                s2.add(a)
+            for e in extra:
+                s2.add(e)
+            with open(os.environ["PYVC_DUMP_SLOW"], "w") as fh:
+                fh.write(f"; {dt_:.2f}s result={r}\n" + s2.to_smt2())
+        self.solver_time += dt_
         return str(r)
 
     def feasible(self) -> bool:
